@@ -398,8 +398,12 @@ inttype(unsigned long long val, bool decimal, char *end)
 	struct type *t;
 	size_t i, step;
 
-	for (i = 0; end[i]; ++i)
+	for (i = 0; end[i]; ++i) {
+		/* the two letters of a long long suffix must have the same case */
+		if (tolower(end[i]) == 'l' && tolower(end[i + 1]) == 'l' && end[i] != end[i + 1])
+			error(&tok.loc, "invalid integer constant suffix '%s'", end);
 		end[i] = tolower(end[i]);
+	}
 	for (i = 0; i < LEN(limits); ++i) {
 		if (strcmp(end, limits[i].end1) == 0)
 			break;
